@@ -12,6 +12,7 @@ import (
 	"strconv"
 	"strings"
 	"sync"
+	"sync/atomic"
 	"time"
 
 	"golang.org/x/crypto/ssh"
@@ -20,7 +21,25 @@ import (
 	"github.com/theparanoids/ysshra/agent/shimagent"
 	"github.com/theparanoids/ysshra/agent/yubiagent"
 	"github.com/theparanoids/ysshra/internal/verifharness/hx"
+	"github.com/theparanoids/ysshra/keyid"
 )
+
+// stressKeyIDs: the KeyID of a certificate must make no difference to the locking — free text and
+// YSSHCA KeyIDs of every certificate type (hardware / touch policies / firefighter / nonce / headless)
+var stressKeyIDs = func() []string {
+	ids := []string{"x", ""}
+	for _, k := range []keyid.KeyID{
+		{TouchPolicy: keyid.NeverTouch}, {TouchPolicy: keyid.NeverTouch, IsHWKey: true}, {TouchPolicy: keyid.AlwaysTouch, IsHWKey: true}, {TouchPolicy: keyid.CachedTouch, IsHWKey: true},
+		{TouchPolicy: keyid.AlwaysTouch}, {TouchPolicy: keyid.CachedTouch, IsHWKey: true, IsFirefighter: true}, {TouchPolicy: keyid.AlwaysTouch, IsFirefighter: true},
+		{TouchPolicy: keyid.NeverTouch, IsNonce: true}, {TouchPolicy: keyid.NeverTouch, IsHeadless: true}, {TouchPolicy: keyid.DefaultTouch, IsHWKey: true},
+	} {
+		k.Version, k.Principals, k.TransID, k.ReqUser, k.ReqIP, k.ReqHost = 1, []string{"alice"}, "t1", "u", "1.2.3.4", "h"
+		if text, err := k.Marshal(); err == nil {
+			ids = append(ids, text)
+		}
+	}
+	return ids
+}()
 
 var childSpec = flag.String("child", "", "internal: run one stress scenario in this (race-instrumented) process")
 
@@ -42,6 +61,10 @@ func init() {
 			}
 			if strings.HasPrefix(os.Args[i+1], "slow,") {
 				fmt.Println(slowUpstream(os.Args[i+1]))
+				os.Exit(0)
+			}
+			if strings.HasPrefix(os.Args[i+1], "inf,") {
+				fmt.Println(inflight(os.Args[i+1]))
 				os.Exit(0)
 			}
 			if strings.HasPrefix(os.Args[i+1], "lin,") {
@@ -142,8 +165,10 @@ func stress(spec string) string {
 		c.SignCert(rand.Reader, caS)
 		return c
 	}
+	var kidN atomic.Int64
 	valid := func() *ssh.Certificate {
-		c := &ssh.Certificate{Key: baseS.PublicKey(), Serial: uint64(time.Now().UnixNano()), CertType: ssh.UserCert, KeyId: "x", ValidAfter: now - 2000, ValidBefore: now + 100000}
+		kid := stressKeyIDs[int(kidN.Add(1))%len(stressKeyIDs)]
+		c := &ssh.Certificate{Key: baseS.PublicKey(), Serial: uint64(time.Now().UnixNano()), CertType: ssh.UserCert, KeyId: kid, ValidAfter: now - 2000, ValidBefore: now + 100000}
 		c.SignCert(rand.Reader, caS)
 		return c
 	}
@@ -162,8 +187,20 @@ func stress(spec string) string {
 			cc.SetDeadline(time.Now().Add(40 * time.Second))
 			myPriv, myS := mkKey()
 			have := false
+			var myHard *ssh.Certificate
 			for i := 0; i < nops; i++ {
-				switch g.Intn(9) {
+				switch g.Intn(10) {
+				case 9: // sign with the hardware certificate this goroutine added last, over its own data
+					if myHard != nil {
+						data := []byte(fmt.Sprintf("hard-g%d-op%d", gi, i))
+						sig, err := cl.Sign(myHard, data)
+						if err == nil && myHard.Key.Verify(data, sig) != nil {
+							report("mixup:sign-hard")
+						}
+						if err != nil && !strings.Contains(err.Error(), "agent: failure") && !strings.Contains(err.Error(), "not found") && !strings.Contains(err.Error(), "failed to sign") {
+							report("mixup:sign-hard-reply:" + hx.HexS(err.Error()))
+						}
+					}
 				case 0:
 					if _, err := cl.List(); err != nil {
 						report("list-error")
@@ -221,8 +258,10 @@ func stress(spec string) string {
 					ring.Add(sshagent.AddedKey{PrivateKey: &basePriv, Certificate: expired(), Comment: "old"})
 				case 6: // hardware certificate, valid or expired
 					c := valid()
-					if g.Bool() {
+					if g.Intn(3) == 0 {
 						c = expired()
+					} else {
+						myHard = c
 					}
 					cl.AddHardCert(c, "yk")
 				case 7: // extension: the reply must carry this goroutine's payload
@@ -258,7 +297,9 @@ func stress(spec string) string {
 	// must verify over the signer's own data and every forwarded reply must carry its own payload
 	{
 		cl0, cc0 := connect(y)
-		cl0.AddHardCert(valid(), "yk")
+		for range stressKeyIDs {
+			cl0.AddHardCert(valid(), "yk")
+		}
 		cc0.Close()
 		ss, err := y.Signers()
 		if err != nil {
@@ -276,7 +317,11 @@ func stress(spec string) string {
 				}()
 				for i := 0; i < 3*nops; i++ {
 					if gi%2 == 0 {
+						// one signer per step, in rotation (every signer is used several times by every goroutine)
 						for si, sg := range ss {
+							if len(ss) > 3 && si != (i+gi)%len(ss) {
+								continue
+							}
 							data := []byte(fmt.Sprintf("p2-g%d-op%d-%d", gi, i, si))
 							sig, err := sg.Sign(rand.Reader, data)
 							if err != nil {
@@ -370,6 +415,8 @@ func genRace(g *hx.Gen, out *hx.Out) {
 	sets = append(sets, []string{"seq", "0", "4"}, []string{"seq", "1", "4"})
 	// an underlying agent that takes several seconds over one answer
 	sets = append(sets, []string{"slow", "0"})
+	// every kind of operation held in flight by a slow answer while another caller sends its own request
+	sets = append(sets, []string{"inf", "0"}, []string{"inf", "1"})
 	out.Batch("rc", "race", sets, 3, func(a []string) []string { return safe(runRace, a) })
 }
 
@@ -428,6 +475,254 @@ func slowUpstream(spec string) string {
 	case <-done:
 	case <-time.After(40 * time.Second):
 		return "hang"
+	}
+	if len(problems) > 0 {
+		sort.Strings(problems)
+		return problems[0]
+	}
+	return "ok"
+}
+
+// ---------------------------------------------------------------- one operation in flight, another arrives
+
+// slowAgent: the next request after arm() is answered only after a pause — whatever its kind
+type slowAgent struct {
+	echoAgent
+	delay *atomic.Int32
+}
+
+func (a slowAgent) wait() {
+	if a.delay.CompareAndSwap(1, 0) {
+		time.Sleep(120 * time.Millisecond)
+	}
+}
+func (a slowAgent) waitSign() {
+	if a.delay.CompareAndSwap(2, 0) {
+		time.Sleep(120 * time.Millisecond)
+	}
+}
+func (a slowAgent) List() ([]*sshagent.Key, error) { a.wait(); return a.echoAgent.List() }
+func (a slowAgent) Sign(k ssh.PublicKey, d []byte) (*ssh.Signature, error) {
+	a.wait()
+	a.waitSign()
+	return a.echoAgent.Sign(k, d)
+}
+func (a slowAgent) SignWithFlags(k ssh.PublicKey, d []byte, f sshagent.SignatureFlags) (*ssh.Signature, error) {
+	a.wait()
+	a.waitSign()
+	return a.echoAgent.SignWithFlags(k, d, f)
+}
+func (a slowAgent) Add(k sshagent.AddedKey) error  { a.wait(); return a.echoAgent.Add(k) }
+func (a slowAgent) Remove(k ssh.PublicKey) error   { a.wait(); return a.echoAgent.Remove(k) }
+func (a slowAgent) RemoveAll() error               { a.wait(); return a.echoAgent.RemoveAll() }
+func (a slowAgent) Lock(p []byte) error            { a.wait(); return a.echoAgent.Lock(p) }
+func (a slowAgent) Unlock(p []byte) error          { a.wait(); return a.echoAgent.Unlock(p) }
+func (a slowAgent) Signers() ([]ssh.Signer, error) { a.wait(); return a.echoAgent.Signers() }
+func (a slowAgent) Extension(t string, c []byte) ([]byte, error) {
+	a.wait()
+	return a.echoAgent.Extension(t, c)
+}
+
+// inflight: for every kind of operation A (signing with a hardware certificate of every KeyID kind,
+// signing with a key, listing, signers, add, remove, remove-all, add-hardware-certificate, lock,
+// unlock, extension, raw forward) the underlying agent takes its time over A's (first) request;
+// while A is in flight another caller B sends a request of its own (raw forward, extension, sign).
+// Both complete, B gets the reply to its own request, A's result is what A alone would have got.
+// spec: inf,<noup 0|1>
+func inflight(spec string) string {
+	noup := strings.HasSuffix(spec, ",1")
+	_, caPriv, _ := ed25519.GenerateKey(rand.Reader)
+	caS, _ := ssh.NewSignerFromKey(caPriv)
+	var aKinds []string
+	for i := range stressKeyIDs {
+		aKinds = append(aKinds, fmt.Sprintf("signhard:%d", i))
+	}
+	aKinds = append(aKinds, "signbase", "list", "signers", "add", "remove", "removeall", "addhard", "lock", "unlock", "ext", "fwd")
+	var mu sync.Mutex
+	var problems []string
+	report := func(s string) { mu.Lock(); problems = append(problems, s); mu.Unlock() }
+	var wg sync.WaitGroup
+	sem := make(chan struct{}, 8)
+	// which of two readers of one connection gets the bytes is up to the scheduler: every pair runs several times
+	var pairs [][2]string
+	for rep := 0; rep < 6; rep++ {
+		for _, ak := range aKinds {
+			for _, bk := range []string{"fwd", "ext", "sign"} {
+				pairs = append(pairs, [2]string{ak, bk})
+			}
+		}
+	}
+	for _, pr := range pairs {
+		{
+			ak, bk := pr[0], pr[1]
+			wg.Add(1)
+			go func(ak, bk string) {
+				defer wg.Done()
+				sem <- struct{}{}
+				defer func() { <-sem }()
+				defer func() {
+					if r := recover(); r != nil {
+						report("crash:" + hx.HexS(fmt.Sprint(r)))
+					}
+				}()
+				_, priv, _ := ed25519.GenerateKey(rand.Reader)
+				ks, _ := ssh.NewSignerFromKey(priv)
+				ring := sshagent.NewKeyring()
+				ring.Add(sshagent.AddedKey{PrivateKey: &priv, Comment: "k"})
+				delay := &atomic.Int32{}
+				sock, stop := underlying(slowAgent{echoAgent{ring}, delay})
+				defer stop()
+				y, err := shimagent.New(shimagent.Option{Address: sock, NoUpstream: noup})
+				if err != nil {
+					report("newerr")
+					return
+				}
+				defer y.Close()
+				now := uint64(time.Now().Unix())
+				kid := "x"
+				if strings.HasPrefix(ak, "signhard:") {
+					i, _ := strconv.Atoi(ak[9:])
+					kid = stressKeyIDs[i]
+				}
+				cert := &ssh.Certificate{Key: ks.PublicKey(), Serial: 11, CertType: ssh.UserCert, KeyId: kid, ValidAfter: now - 2000, ValidBefore: now + 100000}
+				cert.SignCert(rand.Reader, caS)
+				if strings.HasPrefix(ak, "signhard:") {
+					if err := y.AddHardCert(cert, "yk"); err != nil {
+						report("addhard-error:" + ak)
+						return
+					}
+				}
+				if ak == "unlock" {
+					y.Lock([]byte("pw"))
+				}
+				tag := ak + "+" + bk
+				mk := func(payload []byte) []byte {
+					req := append([]byte{27}, sshStr([]byte("echo@verif"))...)
+					return append(req, payload...)
+				}
+				var pwg sync.WaitGroup
+				pwg.Add(2)
+				if strings.HasPrefix(ak, "sign") {
+					delay.Store(2) // the signing request itself is the slow one
+				} else {
+					delay.Store(1)
+				}
+				go func() { // A
+					defer pwg.Done()
+					defer func() {
+						if r := recover(); r != nil {
+							report("crash:" + hx.HexS(fmt.Sprint(r)))
+						}
+					}()
+					data := []byte("in-flight-" + tag)
+					switch {
+					case strings.HasPrefix(ak, "signhard:"):
+						sig, err := y.Sign(cert, data)
+						if err != nil {
+							report("mixup:inflight-sign-hard-reply:" + hx.HexS(tag+" "+err.Error()))
+						} else if ks.PublicKey().Verify(data, sig) != nil {
+							report("mixup:inflight-sign-hard:" + hx.HexS(tag))
+						}
+					case ak == "signbase":
+						sig, err := y.Sign(ks.PublicKey(), data)
+						if err != nil {
+							report("mixup:inflight-sign-reply:" + hx.HexS(tag+" "+err.Error()))
+						} else if ks.PublicKey().Verify(data, sig) != nil {
+							report("mixup:inflight-sign:" + hx.HexS(tag))
+						}
+					case ak == "list":
+						if l, err := y.List(); err != nil || len(l) != 1 {
+							report("mixup:inflight-list:" + hx.HexS(tag+" "+errS(err)))
+						}
+					case ak == "signers":
+						if l, err := y.Signers(); err != nil || len(l) != 1 {
+							report("mixup:inflight-signers:" + hx.HexS(tag+" "+errS(err)))
+						}
+					case ak == "add":
+						_, p2, _ := ed25519.GenerateKey(rand.Reader)
+						if err := y.Add(sshagent.AddedKey{PrivateKey: &p2, Comment: "k2"}); err != nil {
+							report("mixup:inflight-add:" + hx.HexS(tag+" "+errS(err)))
+						}
+					case ak == "remove":
+						if err := y.Remove(ks.PublicKey()); err != nil {
+							report("mixup:inflight-remove:" + hx.HexS(tag+" "+errS(err)))
+						}
+					case ak == "removeall":
+						if err := y.RemoveAll(); err != nil {
+							report("mixup:inflight-removeall:" + hx.HexS(tag+" "+errS(err)))
+						}
+					case ak == "addhard":
+						if err := y.AddHardCert(cert, "yk"); err != nil {
+							report("mixup:inflight-addhard:" + hx.HexS(tag+" "+errS(err)))
+						}
+					case ak == "lock":
+						if err := y.Lock([]byte("pw")); err != nil {
+							report("mixup:inflight-lock:" + hx.HexS(tag+" "+errS(err)))
+						}
+					case ak == "unlock":
+						if err := y.Unlock([]byte("pw")); err != nil {
+							report("mixup:inflight-unlock:" + hx.HexS(tag+" "+errS(err)))
+						}
+					case ak == "ext":
+						resp, err := y.Extension("echo@verif", data)
+						if err != nil || !bytes.Contains(resp, data) {
+							report("mixup:inflight-ext:" + hx.HexS(tag+" "+errS(err)))
+						}
+					case ak == "fwd":
+						resp, err := y.Forward(mk(data))
+						if err != nil || !bytes.Contains(resp, data) {
+							report("mixup:inflight-fwd:" + hx.HexS(tag+" "+errS(err)))
+						}
+					}
+				}()
+				go func() { // B, while A's request is being answered
+					defer pwg.Done()
+					defer func() {
+						if r := recover(); r != nil {
+							report("crash:" + hx.HexS(fmt.Sprint(r)))
+						}
+					}()
+					time.Sleep(40 * time.Millisecond)
+					payload := []byte("arriving-" + tag)
+					switch bk {
+					case "fwd":
+						resp, err := y.Forward(mk(payload))
+						if err == nil && !bytes.Contains(resp, payload) {
+							report("mixup:arriving-forward:" + hx.HexS(tag))
+						}
+						if err != nil && !strings.Contains(err.Error(), "locked") {
+							report("mixup:arriving-forward-reply:" + hx.HexS(tag+" "+err.Error()))
+						}
+					case "ext":
+						resp, err := y.Extension("echo@verif", payload)
+						if err == nil && !bytes.Contains(resp, payload) {
+							report("mixup:arriving-extension:" + hx.HexS(tag))
+						}
+					case "sign":
+						// the key may be gone or the agent locked by A: a refusal is in order, a reply of another kind is not
+						sig, err := y.Sign(ks.PublicKey(), payload)
+						if err == nil && ks.PublicKey().Verify(payload, sig) != nil {
+							report("mixup:arriving-sign:" + hx.HexS(tag))
+						}
+						if err != nil && !strings.Contains(err.Error(), "agent: failure") && !strings.Contains(err.Error(), "not found") &&
+							!strings.Contains(err.Error(), "failed to sign") && !strings.Contains(err.Error(), "locked") {
+							report("mixup:arriving-sign-reply:" + hx.HexS(tag+" "+err.Error()))
+						}
+					}
+				}()
+				done := make(chan struct{})
+				go func() { pwg.Wait(); close(done) }()
+				select {
+				case <-done:
+				case <-time.After(25 * time.Second):
+					report("hang:inflight:" + hx.HexS(tag))
+				}
+			}(ak, bk)
+		}
+	}
+	wg.Wait()
+	if r := globalPanics.Load(); r != nil {
+		report("crash:" + hx.HexS(r.(string)))
 	}
 	if len(problems) > 0 {
 		sort.Strings(problems)
